@@ -1,11 +1,197 @@
-(* C01 — property theorems only: pinned statement, `exact`, Print Assumptions. *)
+(* C01 — property theorems only: pinned statement, `exact`, Print Assumptions.
+   Vocabulary (Proofs/Routing.v, Proofs/RoutingExtra.v):
+     build cfg            the tree SharedLogger::new builds (None = it would panic)
+     deliver t T L        appender indices whose `append` Log::log calls, in call order
+     split_cc T           components of T as `str::split("::")` yields them
+     lpath lg             = split_cc (l_name lg);  is_prefix = component-wise prefix
+     eff cfg T            effective logger (None = root);  spec_level / spec_chain / spec_deliver:
+                          threshold, attachment chain (appender NAMES) and prescribed deliveries
+     chain_members cfg T  effective logger, then its additive configured ancestors, root last
+     valid cfg            distinct logger names not ending in "::", every appender reference declared *)
+From Coq Require Import String.
 From Coq Require Import List NArith Bool Permutation.
 Import ListNotations.
-From L4 Require Import Model.Routing Proofs.Routing.
+From L4 Require Import Model.Routing Proofs.Routing Proofs.RoutingExtra.
+
+(* MAIN: for every valid configuration the real construction succeeds and every
+   (target, level) is delivered to exactly the prescribed list of appenders:
+   list equality - one delivery per attachment, in chain order, nobody else. *)
+Theorem C01_routing_correct :
+  forall cfg, valid cfg ->
+    exists t, build cfg = Some t /\
+      forall target L, map (name_of cfg) (deliver t target L) = spec_deliver cfg target L.
+Proof. exact routing_correct. Qed.
+Print Assumptions C01_routing_correct.
+
+(* what is prescribed: the chain iff the effective threshold admits the level *)
+Theorem C01_prescribed_iff_threshold :
+  forall cfg target L,
+    spec_deliver cfg target L =
+    if N.leb L (spec_level cfg target) then spec_chain cfg target else [].
+Proof. intros; reflexivity. Qed.
+Print Assumptions C01_prescribed_iff_threshold.
+
+(* the effective logger is THE configured logger whose component list is the
+   longest component-wise prefix of the target's; none exists = root *)
+Theorem C01_effective_is_longest_component_prefix :
+  forall cfg q,
+    NoDup (map l_name (c_loggers cfg)) ->
+    match eff_at cfg q with
+    | Some lg =>
+      In lg (c_loggers cfg) /\ is_prefix (lpath lg) q = true /\
+      (forall lg', In lg' (c_loggers cfg) -> is_prefix (lpath lg') q = true ->
+                   length (lpath lg') <= length (lpath lg) /\
+                   (length (lpath lg') = length (lpath lg) -> lg' = lg))
+    | None => forall lg, In lg (c_loggers cfg) -> is_prefix (lpath lg) q = false
+    end.
+Proof. exact eff_at_longest. Qed.
+Print Assumptions C01_effective_is_longest_component_prefix.
+
+(* threshold = the effective logger's level (root's when none); chain = its own
+   attachments followed - iff it is additive - by the chain of its parent name,
+   i.e. of the nearest configured proper ancestor, ..., ending at the root *)
+Theorem C01_level_and_chain_by_effective_logger :
+  forall cfg q,
+    level_at cfg q =
+      match eff_at cfg q with Some lg => l_level lg | None => c_root_level cfg end
+    /\ chain_at cfg q =
+      match eff_at cfg q with
+      | Some lg => l_apps lg ++ (if l_additive lg then chain_at cfg (removelast (lpath lg)) else [])
+      | None => c_root_apps cfg
+      end.
+Proof. exact settings_by_eff. Qed.
+Print Assumptions C01_level_and_chain_by_effective_logger.
+
+Theorem C01_target_enters_through_its_components :
+  forall cfg T, spec_level cfg T = level_at cfg (split_cc T)
+             /\ spec_chain cfg T = chain_at cfg (split_cc T)
+             /\ eff cfg T = eff_at cfg (split_cc T).
+Proof. intros; repeat split. Qed.
+Print Assumptions C01_target_enters_through_its_components.
+
+(* the chain as members: effective logger, additive ancestors, root *)
+Theorem C01_chain_members :
+  forall cfg q,
+    members_at cfg q =
+    match eff_at cfg q with
+    | Some lg => MLogger lg :: (if l_additive lg then members_at cfg (removelast (lpath lg)) else [])
+    | None => [MRoot]
+    end.
+Proof. exact members_by_eff. Qed.
+Print Assumptions C01_chain_members.
+
+(* each attachment along the chain = exactly one delivery, no other appender *)
+Theorem C01_one_delivery_per_attachment :
+  forall cfg t, valid cfg -> build cfg = Some t ->
+    forall T L a,
+      count_occ str_dec (map (name_of cfg) (deliver t T L)) a =
+      if N.leb L (spec_level cfg T)
+      then list_sum (map (fun m => count_occ str_dec (m_apps cfg m) a) (chain_members cfg T))
+      else 0.
+Proof. exact delivered_counts. Qed.
+Print Assumptions C01_one_delivery_per_attachment.
+
+Theorem C01_delivered_exactly_when :
+  forall cfg t, valid cfg -> build cfg = Some t ->
+    forall T L a,
+      In a (map (name_of cfg) (deliver t T L)) <->
+      (L <= spec_level cfg T)%N /\ exists m, In m (chain_members cfg T) /\ In a (m_apps cfg m).
+Proof. exact delivered_iff. Qed.
+Print Assumptions C01_delivered_exactly_when.
+
+(* whatever lies below the effective logger - implied intermediates, unknown
+   descendants, textual look-alikes of a sibling - changes nothing *)
+Theorem C01_decided_by_effective_logger :
+  forall cfg T,
+    NoDup (map l_name (c_loggers cfg)) ->
+    match eff cfg T with
+    | Some lg => forall L, spec_deliver cfg T L = spec_deliver cfg (l_name lg) L
+    | None => forall L, spec_deliver cfg T L =
+                        if N.leb L (c_root_level cfg) then c_root_apps cfg else []
+    end.
+Proof. exact spec_decided_by_eff. Qed.
+Print Assumptions C01_decided_by_effective_logger.
+
+Theorem C01_implied_intermediates_transparent :
+  forall cfg t, valid cfg -> build cfg = Some t ->
+    forall T T' c,
+      split_cc T = split_cc T' ++ [c] ->
+      logger_at (c_loggers cfg) (split_cc T) = None ->
+      forall L, map (name_of cfg) (deliver t T L) = map (name_of cfg) (deliver t T' L)
+                /\ enabled_at t T L = enabled_at t T' L.
+Proof. exact implied_transparent. Qed.
+Print Assumptions C01_implied_intermediates_transparent.
+
+(* declaration order of loggers and of appenders is irrelevant *)
+Theorem C01_declaration_order_independent :
+  forall c1 c2, valid c1 ->
+    Permutation (c_loggers c1) (c_loggers c2) ->
+    Permutation (c_appenders c1) (c_appenders c2) ->
+    c_root_level c1 = c_root_level c2 -> c_root_apps c1 = c_root_apps c2 ->
+    exists t1 t2, build c1 = Some t1 /\ build c2 = Some t2 /\
+      forall target L,
+        map (name_of c1) (deliver t1 target L) = map (name_of c2) (deliver t2 target L)
+        /\ spec_deliver c1 target L = spec_deliver c2 target L.
+Proof. exact routing_order_independent. Qed.
+Print Assumptions C01_declaration_order_independent.
 
 (* `add` splits with repeated find("::"), `find` with split("::"): the two agree
-   on every name that does not end in "::" *)
+   on every name that does not end in "::"; names accepted by
+   check_logger_name are such names *)
 Theorem C01_split_add_agree :
   forall n, last (split_cc n) [] <> [] -> add_parts n = split_cc n.
 Proof. exact add_parts_split. Qed.
 Print Assumptions C01_split_add_agree.
+
+Theorem C01_accepted_names_usable :
+  forall n, check_logger_name n = true -> last (split_cc n) [] <> [].
+Proof. exact checked_name_ok. Qed.
+Print Assumptions C01_accepted_names_usable.
+
+(* ---- non-vacuity: a concrete configuration, declared children first ---- *)
+Definition ex_abc := {| l_name := bs "a::b::c"; l_level := 5%N; l_additive := true;  l_apps := [bs "C"; bs "C"] |}.
+Definition ex_abx := {| l_name := bs "a::bx";   l_level := 1%N; l_additive := false; l_apps := [bs "C"] |}.
+Definition ex_x   := {| l_name := bs "x";       l_level := 0%N; l_additive := true;  l_apps := [bs "B"] |}.
+Definition ex_a   := {| l_name := bs "a";       l_level := 3%N; l_additive := true;  l_apps := [bs "B"] |}.
+Definition ex_loggers : list logger := [ex_abc; ex_abx; ex_x; ex_a].
+Definition ex_cfg : config :=
+  {| c_appenders := [bs "A"; bs "B"; bs "C"]; c_root_level := 2%N; c_root_apps := [bs "A"];
+     c_loggers := ex_loggers |}.
+Definition ex_cfg' : config :=
+  {| c_appenders := [bs "C"; bs "A"; bs "B"]; c_root_level := 2%N; c_root_apps := [bs "A"];
+     c_loggers := rev ex_loggers |}.
+Definition ex_out (cfg : config) (T : string) (L : N) : option (list str) :=
+  option_map (fun t => map (name_of cfg) (deliver t (bs T) L)) (build cfg).
+
+Example C01_example_valid : valid ex_cfg /\ valid ex_cfg'.
+Proof. split; apply validb_sound; vm_compute; reflexivity. Qed.
+
+Example C01_example_routes :
+  (* additive chain through the implied a::b up to the root; C attached twice *)
+  ex_out ex_cfg "a::b::c::d" 5 = Some [bs "C"; bs "C"; bs "B"; bs "A"] /\
+  (* implied intermediate a::b behaves as a (level Info) *)
+  ex_out ex_cfg "a::b" 4 = Some [] /\ ex_out ex_cfg "a::b" 3 = Some [bs "B"; bs "A"] /\
+  (* textual but not component prefix: a::bxy and a::b: are NOT under a::bx / a::b *)
+  ex_out ex_cfg "a::bxy" 3 = Some [bs "B"; bs "A"] /\
+  ex_out ex_cfg "a::bx::y" 1 = Some [bs "C"] /\ ex_out ex_cfg "a::bx::y" 2 = Some [] /\
+  ex_out ex_cfg "a::b:::c" 4 = Some [] /\ ex_out ex_cfg "a::b:::c" 3 = Some [bs "B"; bs "A"] /\
+  (* root, empty target, stray colons, Off *)
+  ex_out ex_cfg "" 2 = Some [bs "A"] /\ ex_out ex_cfg "ax" 3 = Some [] /\
+  ex_out ex_cfg "::a" 2 = Some [bs "A"] /\ ex_out ex_cfg "x::y" 1 = Some [] /\
+  (* same answers when loggers and appenders are declared in another order *)
+  forallb (fun T => forallb (fun L =>
+      match ex_out ex_cfg T L, ex_out ex_cfg' T L with
+      | Some a, Some b => if list_eq_dec str_dec a b then true else false
+      | _, _ => false end) [1;2;3;4;5]%N)
+    ["a::b::c::d"; "a::b::c"; "a::b"; "a"; "a::bx"; "a::bxy"; "x"; ""; "::"; "a::"; "b"]%string = true.
+Proof. vm_compute. repeat split. Qed.
+
+Example C01_example_effective :
+  eff ex_cfg (bs "a::b::c::d") = Some ex_abc /\
+  eff ex_cfg (bs "a::b::cc") = Some ex_a /\
+  eff ex_cfg (bs "a::bx") = Some ex_abx /\
+  eff ex_cfg (bs "a::bxy") = Some ex_a /\
+  eff ex_cfg (bs "ab") = None /\
+  chain_members ex_cfg (bs "a::b::c") = [MLogger ex_abc; MLogger ex_a; MRoot] /\
+  chain_members ex_cfg (bs "a::bx::q") = [MLogger ex_abx].
+Proof. vm_compute. repeat split. Qed.
